@@ -894,170 +894,259 @@ func (t *Term) String() string {
 
 type Model map[*Term]uint64
 
+// u128 carries evaluation results for terms up to 128 bits wide.
+type u128 struct{ hi, lo uint64 }
+
+func (x u128) mask(w int) u128 {
+	switch {
+	case w == 0:
+		return u128{0, x.lo & 1}
+	case w <= 64:
+		return u128{0, x.lo & wmask(w)}
+	case w >= 128:
+		return x
+	}
+	return u128{x.hi & wmask(w-64), x.lo}
+}
+func (x u128) add(y u128) u128 {
+	lo, c := bits.Add64(x.lo, y.lo, 0)
+	hi, _ := bits.Add64(x.hi, y.hi, c)
+	return u128{hi, lo}
+}
+func (x u128) not() u128 { return u128{^x.hi, ^x.lo} }
+func (x u128) neg() u128 { return x.not().add(u128{0, 1}) }
+func (x u128) mul(y u128) u128 {
+	hi, lo := bits.Mul64(x.lo, y.lo)
+	hi += x.hi*y.lo + x.lo*y.hi
+	return u128{hi, lo}
+}
+func (x u128) shl(n uint) u128 {
+	switch {
+	case n == 0:
+		return x
+	case n >= 128:
+		return u128{}
+	case n >= 64:
+		return u128{x.lo << (n - 64), 0}
+	}
+	return u128{x.hi<<n | x.lo>>(64-n), x.lo << n}
+}
+func (x u128) shr(n uint) u128 {
+	switch {
+	case n == 0:
+		return x
+	case n >= 128:
+		return u128{}
+	case n >= 64:
+		return u128{0, x.hi >> (n - 64)}
+	}
+	return u128{x.hi >> n, x.lo>>n | x.hi<<(64-n)}
+}
+func (x u128) less(y u128) bool { return x.hi < y.hi || x.hi == y.hi && x.lo < y.lo }
+func (x u128) bit(i int) bool {
+	if i >= 64 {
+		return x.hi>>(uint(i)-64)&1 == 1
+	}
+	return x.lo>>uint(i)&1 == 1
+}
+func (x u128) sext(w int) u128 { // sign-extend from width w to 128
+	if w >= 128 || w == 0 || !x.bit(w-1) {
+		return x
+	}
+	ones := u128{^uint64(0), ^uint64(0)}.shl(uint(w))
+	return u128{x.hi | ones.hi, x.lo | ones.lo}
+}
+func (x u128) sless(y u128, w int) bool {
+	a, b := x.sext(w), y.sext(w)
+	if int64(a.hi) != int64(b.hi) {
+		return int64(a.hi) < int64(b.hi)
+	}
+	return a.lo < b.lo
+}
+
 type evaluator struct {
 	m    Model
-	memo map[*Term]uint64
+	memo map[*Term]u128
 }
 
 func Eval(t *Term, m Model) uint64 {
-	e := evaluator{m: m, memo: map[*Term]uint64{}}
-	return e.eval(t)
+	e := evaluator{m: m, memo: map[*Term]u128{}}
+	return e.eval(t).lo
 }
 
-func (e *evaluator) eval(t *Term) uint64 {
+func (e *evaluator) eval(t *Term) u128 {
 	switch t.Op {
 	case OpConst:
-		return t.C
+		return u128{0, t.C}
 	case OpTrue:
-		return 1
+		return u128{0, 1}
 	case OpFalse:
-		return 0
+		return u128{}
 	case OpSym:
-		return e.m[t] & wmaskB(t.W)
+		return u128{0, e.m[t] & wmaskB(t.W)}
 	}
 	if v, ok := e.memo[t]; ok {
 		return v
 	}
-	var r uint64
+	var r u128
 	w := t.W
-	a := func(i int) uint64 { return e.eval(t.Args[i]) }
+	a := func(i int) u128 { return e.eval(t.Args[i]) }
 	aw := 0
 	if len(t.Args) > 0 {
 		aw = t.Args[0].W
 	}
+	small := aw <= 64 && w <= 64
 	switch t.Op {
 	case OpAdd:
-		r = a(0) + a(1)
+		r = a(0).add(a(1))
 	case OpSub:
-		r = a(0) - a(1)
+		r = a(0).add(a(1).neg())
 	case OpMul:
-		r = a(0) * a(1)
-	case OpUDiv:
-		if y := a(1); y == 0 {
-			r = wmask(w)
-		} else {
-			r = a(0) / y
+		r = a(0).mul(a(1))
+	case OpUDiv, OpURem, OpSDiv, OpSRem:
+		if !small {
+			panic("eval: wide division")
 		}
-	case OpURem:
-		if y := a(1); y == 0 {
-			r = a(0)
-		} else {
-			r = a(0) % y
-		}
-	case OpSDiv:
-		x, y := sext64(a(0), w), sext64(a(1), w)
-		switch {
-		case y == 0:
-			if x >= 0 {
-				r = wmask(w)
+		x, y := a(0).lo, a(1).lo
+		switch t.Op {
+		case OpUDiv:
+			if y == 0 {
+				r.lo = wmask(w)
 			} else {
-				r = 1
+				r.lo = x / y
 			}
-		case y == -1:
-			r = uint64(-x)
-		default:
-			r = uint64(x / y)
-		}
-	case OpSRem:
-		x, y := sext64(a(0), w), sext64(a(1), w)
-		switch {
-		case y == 0:
-			r = uint64(x)
-		case y == -1:
-			r = 0
-		default:
-			r = uint64(x % y)
+		case OpURem:
+			if y == 0 {
+				r.lo = x
+			} else {
+				r.lo = x % y
+			}
+		case OpSDiv:
+			sx, sy := sext64(x, w), sext64(y, w)
+			switch {
+			case sy == 0:
+				if sx >= 0 {
+					r.lo = wmask(w)
+				} else {
+					r.lo = 1
+				}
+			case sy == -1:
+				r.lo = uint64(-sx)
+			default:
+				r.lo = uint64(sx / sy)
+			}
+		case OpSRem:
+			sx, sy := sext64(x, w), sext64(y, w)
+			switch {
+			case sy == 0:
+				r.lo = uint64(sx)
+			case sy == -1:
+				r.lo = 0
+			default:
+				r.lo = uint64(sx % sy)
+			}
 		}
 	case OpAnd:
-		r = a(0) & a(1)
+		x, y := a(0), a(1)
+		r = u128{x.hi & y.hi, x.lo & y.lo}
 	case OpOr:
-		r = a(0) | a(1)
+		x, y := a(0), a(1)
+		r = u128{x.hi | y.hi, x.lo | y.lo}
 	case OpXor:
-		r = a(0) ^ a(1)
+		x, y := a(0), a(1)
+		r = u128{x.hi ^ y.hi, x.lo ^ y.lo}
 	case OpNot:
-		r = ^a(0)
+		r = a(0).not()
 	case OpNeg:
-		r = -a(0)
+		r = a(0).neg()
 	case OpShl:
-		if y := a(1); y >= uint64(w) {
-			r = 0
+		y := a(1)
+		if y.hi != 0 || y.lo >= uint64(w) {
+			r = u128{}
 		} else {
-			r = a(0) << y
+			r = a(0).shl(uint(y.lo))
 		}
 	case OpLShr:
-		if y := a(1); y >= uint64(w) {
-			r = 0
+		y := a(1)
+		if y.hi != 0 || y.lo >= uint64(w) {
+			r = u128{}
 		} else {
-			r = a(0) >> y
+			r = a(0).shr(uint(y.lo))
 		}
 	case OpAShr:
 		y := a(1)
-		if y >= uint64(w) {
-			y = uint64(w - 1)
+		n := uint(w - 1)
+		if y.hi == 0 && y.lo < uint64(w) {
+			n = uint(y.lo)
 		}
-		r = uint64(sext64(a(0), w) >> y)
+		x := a(0).sext(w)
+		// arithmetic shift on 128 bits
+		neg := x.bit(127)
+		r = x.shr(n)
+		if neg && n > 0 {
+			ones := u128{^uint64(0), ^uint64(0)}.shl(128 - n)
+			r = u128{r.hi | ones.hi, r.lo | ones.lo}
+		}
 	case OpConcat:
-		r = a(0)<<uint(t.Args[1].W) | a(1)
+		lo := a(1)
+		r = a(0).shl(uint(t.Args[1].W))
+		r = u128{r.hi | lo.hi, r.lo | lo.lo}
 	case OpExtract:
-		r = a(0) >> uint(t.C&0xff)
+		r = a(0).shr(uint(t.C & 0xff))
 	case OpZExt:
 		r = a(0)
 	case OpSExt:
-		r = uint64(sext64(a(0), aw))
+		r = a(0).sext(aw)
 	case OpIte:
-		if a(0) != 0 {
+		if a(0).lo != 0 {
 			r = a(1)
 		} else {
 			r = a(2)
 		}
 	case OpEq:
-		r = b2u(a(0) == a(1))
+		r.lo = b2u(a(0) == a(1))
 	case OpUlt:
-		r = b2u(a(0) < a(1))
+		r.lo = b2u(a(0).less(a(1)))
 	case OpUle:
-		r = b2u(a(0) <= a(1))
+		r.lo = b2u(!a(1).less(a(0)))
 	case OpSlt:
-		r = b2u(sext64(a(0), aw) < sext64(a(1), aw))
+		r.lo = b2u(a(0).sless(a(1), aw))
 	case OpSle:
-		r = b2u(sext64(a(0), aw) <= sext64(a(1), aw))
+		r.lo = b2u(!a(1).sless(a(0), aw))
 	case OpBAnd:
-		r = a(0) & a(1)
+		r.lo = a(0).lo & a(1).lo
 	case OpBOr:
-		r = a(0) | a(1)
+		r.lo = a(0).lo | a(1).lo
 	case OpBNot:
-		r = a(0) ^ 1
+		r.lo = a(0).lo ^ 1
 	case OpFEq, OpFLt, OpFLe:
-		x, y := fval(Const(aw, a(0))), fval(Const(aw, a(1)))
+		x, y := fval(Const(aw, a(0).lo)), fval(Const(aw, a(1).lo))
 		switch t.Op {
 		case OpFEq:
-			r = b2u(x == y)
+			r.lo = b2u(x == y)
 		case OpFLt:
-			r = b2u(x < y)
+			r.lo = b2u(x < y)
 		default:
-			r = b2u(x <= y)
+			r.lo = b2u(x <= y)
 		}
 	case OpFIsNaN:
-		r = b2u(math.IsNaN(fval(Const(aw, a(0)))))
+		r.lo = b2u(math.IsNaN(fval(Const(aw, a(0).lo))))
 	case OpFCvt:
-		r = fconst(w, fval(Const(aw, a(0)))).C
+		r.lo = fconst(w, fval(Const(aw, a(0).lo))).C
 	case OpSIToF:
-		r = fconst(w, float64(sext64(a(0), aw))).C
+		r.lo = fconst(w, float64(sext64(a(0).lo, aw))).C
 	case OpUIToF:
-		r = fconst(w, float64(a(0))).C
+		r.lo = fconst(w, float64(a(0).lo)).C
 	case OpFToSI:
-		r = uint64(int64(fval(Const(aw, a(0)))))
+		r.lo = uint64(int64(fval(Const(aw, a(0).lo))))
 	case OpFToUI:
-		r = uint64(fval(Const(aw, a(0))))
+		r.lo = uint64(fval(Const(aw, a(0).lo)))
 	case OpFAdd, OpFSub, OpFMul, OpFDiv:
-		r = FArith(t.Op, Const(aw, a(0)), Const(aw, a(1))).C
+		r.lo = FArith(t.Op, Const(aw, a(0).lo), Const(aw, a(1).lo)).C
 	default:
 		panic(fmt.Sprintf("eval op %d", t.Op))
 	}
-	if w > 0 {
-		r &= wmask(w)
-	} else {
-		r &= 1
-	}
+	r = r.mask(w)
 	e.memo[t] = r
 	return r
 }
